@@ -63,6 +63,12 @@ func init() {
 		assumptions: commonAssumptions,
 		technique:   "abstract interpretation into residual programs + structural plumbing rules + go/types check of residuals under distinct opaque types (parametricity)",
 	}
+	checks["C16"] = &checkDef{
+		run: runR_C16,
+		explanation: "Engine R on compose, the error forms of fmap and join, traverse and toerror, for 2..3 stages x 0..2 intermediate/final results (arity bounds) and every zero-value kind: (R13) every stage function is called exactly once, in straight-line code, in data-flow order, with exactly the values the previous step produced, in order; each failing-capable stage's error variable is tested immediately after the call and the failure branch returns that very variable with only zero literals next to it; a failing-capable stage is never tail-called or called inside a function literal; the success path returns the last stage's values and nil. traverse: f once per element on the range element, result stored at the element's index, `return nil, err` immediately after the call. toerror: f once with the closure's parameters in order, other results passed through unchanged, nil only under success and the supplied error only under ¬success. derive.Zero is tabulated over go/types kinds (nil only for nilable underlying kinds). Not decided: identity of error objects at run time beyond variable identity, user function behaviour.",
+		assumptions: commonAssumptions,
+		technique:   "abstract interpretation into residual programs + straight-line chain analysis and guard-set rules on the residual ASTs; tabulation of derive.Zero",
+	}
 	checks["C07"] = &checkDef{
 		run: func(c *Ctx) {
 			runG4(c.Repo, c.Rep)
